@@ -845,7 +845,10 @@ def one_cut_cases(kinds):
 
 
 OCTET_NAMES = [b"\xff", b"caf\xe9.example", b"\xc3\xa9.example", b"\x80\x81", b"\x01\x7f", b"b\xfccher.example",
-               b"\xe4\xb8", bytes(range(1, 256))]
+               b"\xe4\xb8", bytes(range(1, 256)),
+               # names a well-meaning normaliser would alter ("exactly the name ... in the reply"): root-dotted, the
+               # root itself, blanks at the ends, upper case
+               b"host.example.net.", b".", b"a..", b" a.example ", b"A.Example.ORG", b"a.example\x00"]
 
 
 def octet_name_cases():
